@@ -834,7 +834,13 @@ func (a *AttributeExpr) inheritValidations(parent *AttributeExpr) {
 	if a.Validation == nil {
 		a.Validation = &ValidationExpr{}
 	}
-	a.Validation.AddRequired(parent.Validation.Required...)
+	// Only the attributes that the child defines can be required.
+	obj := AsObject(a.Type)
+	for _, n := range parent.Validation.Required {
+		if obj.Attribute(n) != nil {
+			a.Validation.AddRequired(n)
+		}
+	}
 }
 
 func (a *AttributeExpr) shouldInherit(parent *AttributeExpr) bool {
